@@ -28,8 +28,9 @@ RULE = ("(bifurcating tree shape x rooting) x (data type, matrix over the full s
         "matrix content, options, history length)")
 REACH = ["parsimony:parsimony_score", "parsimony:fitch_down_pass", "charmatrixmodel:DiscreteCharacterMatrix.taxon_state_sets_map",
          "parsimony:fitch_up_pass"]
-MIN_EVENTS = {"score-compared-with-oracle": (2000, 60000), "repeat-call-compared": (1500, 40000), "bruteforce-crosscheck": (100, 2000),
-              "rerooted-compared": (300, 8000)}
+MIN_EVENTS = {"score-compared-with-oracle": (2000, 20000), "repeat-call-compared": (1500, 15000), "bruteforce-crosscheck": (100, 1000),
+              "rerooted-compared": (300, 3000)}
+CASE_TIMEOUT = 600
 ASSUMPTIONS = ["Sankoff oracle with unit costs equals the Fitch count on bifurcating trees (cross-checked by brute force on small cases)",
                "symbol tables for DNA/RNA/protein/standard are written in the oracle"]
 
@@ -199,6 +200,8 @@ def run_case(case, ctx):
         for k in range(ncalls):
             dtype = rng.choice(["dna", "dna", "protein", "standard", "rna"])
             ncol = rng.choice([1, 2, 5, 12, 30]) if quick else rng.choice([1, 3, 10, 40, 150, 500])
+            if ncol * n > 6000:
+                ncol = max(1, 6000 // n)      # keeps the (pure Python) Sankoff oracle within seconds per case
             m, rows = make_matrix(rng, dtype, labels, ncol, ns, rng.choice(["clean", "ambiguous", "wild"]))
             gam = rng.random() < 0.5
             weights = [rng.choice([0, 1, 1, 2, 5]) for _ in range(ncol)] if rng.random() < 0.4 else None
